@@ -13,7 +13,7 @@ CHECKS = {
  "C04": ("generated termination causes x hook outcomes x phases; oracle: per-actor regular language over hook events, on_stop exactly-once rules, killed flag iff a kill signal could have been consumed", "5/C04"),
  "C05": ("same generator as C04; oracle: expected ActorResult recomputed from the hook trace alone (phase, killed, error tag, presence and state of the instance, panic payload) + accessor laws on every real result", "5/C05"),
  "C06": ("generated kill() instants with 0-64 queued messages in every actor phase; oracle: kill never fails/blocks, <=1 handler entry after kill returned, on_stop(killed=true) with no idle gap, result killed=true, queued asks fail (once the hook in progress finishes); plus a generated real-thread experiment (2-6 OS threads calling kill() on one actor at the same instant, kill() hammered while the actor is stopped and joined: every call Ok, JoinHandle resolves, killed=true)", "5/C06"),
- "C07": ("generated clone/drop/downgrade/upgrade/erase histories; model = number of strong handles the harness holds; oracle at quiescence: ended gracefully iff unreferenced or stopped; still serving otherwise (probe ask/tell)", "5/C07"),
+ "C07": ("generated clone/drop/downgrade/upgrade/erase histories; model = number of strong handles the harness holds; oracle at quiescence: ended gracefully iff unreferenced or stopped; still serving otherwise (probe ask/tell); plus a real-thread supplement (multi_thread runtime, OS-thread clients): a referenced, never-stopped actor has not ended and does not refuse probes; after the epilogue - stop() on every other actor, every handle dropped - each idle actor has ended gracefully", "5/C07"),
  "C08": ("generated on_run scripts with message arrivals around their await points; oracle at every on_run progress event: no accepted-unhandled message, no returned kill; Ok(true) re-arms, Ok(false) silences for good without ending the actor, Err -> on_stop(false)", "5/C08"),
  "C09": ("generated capacities/senders/gates; occupancy lower and upper bounds recomputed from the trace at every event and every quiescent instant (accepted <= capacity; a waiting sender implies a full mailbox); Send errors only on ending actors", "5/C09"),
  "C10": ("generated timeout values (0..40 ms odd/even, huge) vs natural completion instants; all comparisons in exact virtual milliseconds: Ok by the deadline at the completion instant, Timeout exactly at the deadline and only if nothing completed/failed strictly before, other failures at the instant of their cause; is_retryable on every error value seen", "5/C10"),
